@@ -7,11 +7,12 @@ from .. import driver, fsharness, gen
 META = {'assumptions': ['os.path.getmtime / os.listdir / os.walk and the JSON/YAML parsers are library behaviour; the model '
                         'takes parsed file contents and integer mtimes (set by the harness with os.utime)']}
 
-FILES = [(None, None), (0, 'a.yaml'), (1, 'b.yaml'), (0, 'z.yaml')]
+FILES = [(None, None), (0, 'a.yaml'), (0, 'z.yaml'), (1, 'b.yaml')]     # two files share directory 0
 CONTENTS = [{'p': 'role:r0'}, {'oldp': 'role:r0 and role:r1'}, {'q': '@', 'p': 'role:r1'}, {}, {'q': 'role:r0 or role:r1'}, {'d': '!'},
             {'oldp': '!', 'q': 'role:r1'}, {'p': '!'}]
 ROLES = ['r0', 'r1']
-NAMES = ['p', 'q', 'd', 'oldp', 'nope']
+NAMES = ['p', 'q', 'd', 'oldp', 'nope', 'late']
+LATE = {'name': 'late', 'check_str': 'role:r0 and role:r1'}      # a default registered in the middle of a history
 REGSETS = [
     [{'name': 'p', 'check_str': 'role:r1'}, {'name': 'd', 'check_str': '@'}],
     [{'name': 'p', 'check_str': 'role:r1', 'deprecated': ('oldp', 'role:r0')}, {'name': 'd', 'check_str': '@'}],
@@ -72,6 +73,10 @@ def run_history(w, hist, start_main, regs_i, enf_new):
         elif op[0] == 'force':
             err = w.load(e, force=True)
             obs.append(err or fsharness.observe(e))
+        elif op[0] == 'register':
+            if LATE not in w.regs:
+                w.regs = list(w.regs) + [LATE]
+                w.register(e, [LATE])
     # the next decision: enforce() on the long-lived enforcer vs a newly constructed one
     creds = [{'roles': s} for s in gen.subsets(ROLES)]
     w.steps.append({'op': 'load', 'force': False, 'fs': w.snapshot()})
@@ -87,11 +92,20 @@ def run(ctx, rep):
     try:
         hists = []
         L = ctx.bound(3, 4)
-        alpha = ops_alphabet(3, 3)      # contents 0..2: a new-name override, an old-name override, a two-rule file
+        # contents 0..2: a new-name override, an old-name override, a two-rule file
+        alpha4 = ops_alphabet(4, 3)     # main file, two files in one directory, one in another
+        alpha3 = ops_alphabet(3, 3)     # main file and the two files sharing a directory
         for n in range(0, L + 1):
-            for h in itertools.product(alpha, repeat=n):
-                # skip histories without any file operation after the first position variety: keep all
+            for h in itertools.product(alpha4 if n <= 3 else alpha3, repeat=n):
                 hists.append(list(h))
+        # directed: several files in one directory, one of them removed / replaced / touched between loads
+        directed = []
+        for first, second in (((0, 'a.yaml'), (0, 'z.yaml')), ((0, 'z.yaml'), (0, 'a.yaml'))):
+            for c1, c2 in ((0, 2), (2, 0), (1, 2), (0, 0)):
+                for last in (('delete', first), ('delete', second), ('touch', first), ('write', second, 1)):
+                    directed.append([('write', first, c1), ('write', second, c2), ('load',), last])
+                    directed.append([('write', first, c1), ('write', second, c2), ('write', (1, 'b.yaml'), 1), ('load',), last,
+                                     ('load',), ('delete', (1, 'b.yaml'))])
         total = len(hists)
         if not ctx.thorough:
             # all histories up to length 2 plus a random sample of the length-3 ones
@@ -99,12 +113,17 @@ def run(ctx, rep):
             long_ = [h for h in hists if len(h) > 2]
             ctx.rng.shuffle(long_)
             hists = short + long_[:ctx.n(1200, 0)]
+        directed += [[('register',)], [('load',), ('register',)], [('load',), ('register',), ('load',)],
+                     [('write', (None, None), 0), ('load',), ('register',), ('touch', (None, None))],
+                     [('write', (0, 'a.yaml'), 2), ('load',), ('register',), ('delete', (0, 'a.yaml')), ('load',)]]
+        hists = directed + hists
         rnd = []
-        big = ops_alphabet(4, len(CONTENTS)) + [('force',)]
+        big = ops_alphabet(4, len(CONTENTS)) + [('force',), ('register',)]
         for _ in range(ctx.n(120, 4000)):
             rnd.append([ctx.rng.choice(big) for _ in range(ctx.rng.randint(4, 40))])
-        rep.rules.append('operation histories over {write x3 contents, touch, delete} x {main file, policy.d/a.yaml, extra.d/b.yaml} '
-                         '+ load: %d of the %d histories of length<=%d (all of length<=2); %d random histories of 4..40 steps over 4 '
+        rep.rules.append('operation histories over {write x3 contents, touch, delete} x {main file, policy.d/a.yaml, policy.d/z.yaml, '
+                         'extra.d/b.yaml} + load: %d of the %d histories of length<=%d (all of length<=2, 64 directed ones with several '
+                         'files in one directory); %d random histories of 4..40 steps over 4 '
                          'files, 6 contents, forced loads; x start with/without a main file (and with a directory override) x plain/'
                          'deprecated registered defaults; after every load the model is compared, at the end the long-lived '
                          "enforcer's next decisions (5 names x 4 role sets) with a brand-new enforcer's"
@@ -117,7 +136,8 @@ def run(ctx, rep):
             regs_i = (k // 3) % 2
             enf_new = (k // 6) % 2 == 0
             obs, d_long, d_fresh, o_fresh = run_history(w, h, start_main, regs_i, enf_new)
-            pending.append((h, start_main, regs_i, enf_new, obs, d_long, d_fresh, o_fresh, w.model_request()))
+            pending.append((h, start_main, regs_i, enf_new, obs, d_long, d_fresh, o_fresh,
+                            w.model_request(initial_regs=REGSETS[regs_i])))
         answers = driver.call([p[-1] for p in pending])
         for (h, start_main, regs_i, enf_new, obs, d_long, d_fresh, o_fresh, _), ans in zip(pending, answers):
             key = 'c10:%r|%d|%d|%s' % (h, start_main, regs_i, enf_new)
